@@ -167,8 +167,6 @@ def main(argv):
             for h in harnesses:
                 res = results.get(h)
                 info = hinfo.get(h, {})
-                if info.get("bounded"):
-                    bounded.append({"harness": h, "bound": info["bounded"]})
                 if res is None:
                     undecided.append(f"kani/{h}: harness not generated or not run (lost anchor)")
                     continue
@@ -181,7 +179,12 @@ def main(argv):
                         # a listed finding: reported, not counted as an obligation of this run, never a violation
                         known_hits.extend(kf)
                         continue
-                obligations.append(ob)
+                if info.get("bounded"):
+                    # a bounded stand-in: reported, never counted as a discharged proof obligation
+                    bounded.append({"harness": h, "bound": info["bounded"], "result": res["status"], "time_s": res["time_s"],
+                                    "cbmc_checks": res.get("checks"), "covers": ob["covers"]})
+                else:
+                    obligations.append(ob)
                 if res["status"] == "ok":
                     if res.get("cover_total", 0) and res.get("cover_satisfied", 0) != res.get("cover_total", 0):
                         undecided.append(f"kani/{h}: only {res['cover_satisfied']}/{res['cover_total']} cover properties reachable (vacuity)")
@@ -295,7 +298,7 @@ def main(argv):
     # ------------------------------------------------------------------ verdict + evidence
     n_ob = len(obligations)
     n_ok = sum(1 for o in obligations if o["ok"])
-    if n_ob == 0 and not undecided:
+    if n_ob == 0 and not bounded and not undecided:
         undecided.append("no obligations were generated")
     wall = time.time() - t0
     by_backend = {}
